@@ -583,6 +583,18 @@ func (ex *Exec) registerIntrinsics() {
 	}
 	I["encoding/gob.Register"] = func(ex *Exec, fr *frame, a []V) V { return nil }
 	I["regexp.MustCompile"] = func(ex *Exec, fr *frame, a []V) V { return NativeV{X: regexp.MustCompile(ex.str(a[0]))} }
+	I["(encoding/binary.littleEndian).PutUint64"] = func(ex *Exec, fr *frame, a []V) V {
+		s := a[1].(Slice)
+		v := a[2].(*Term)
+		if s.B == nil {
+			ex.throw("runtime error: index out of range (PutUint64)")
+		}
+		ex.boundsCheck(ex.c64(7), s.Len, "PutUint64", token.NoPos, fr)
+		for i := 0; i < 8; i++ {
+			ex.storeNum(s.B, ts.BvBin(OAdd, s.Off, ex.c64(int64(i))), ts.Extract(v, i*8+7, i*8), 1, nil)
+		}
+		return nil
+	}
 	I["hash/fnv.New64a"] = func(ex *Exec, fr *frame, a []V) V {
 		p := new(V)
 		*p = Struct{ex.ts.BV(64, 14695981039346656037)}
